@@ -742,6 +742,13 @@ class BaseConnector:
                 if traces:
                     for trace in traces:
                         await trace.send_connection_queued_end()
+            except asyncio.CancelledError:
+                # Cancelled (or timed out) after _release_waiter() already woke
+                # this waiter: the slot it was woken for is still free, so pass
+                # the wake-up on instead of losing it.
+                if fut.done() and not fut.cancelled():
+                    self._release_waiter()
+                raise
             finally:
                 # pop the waiter from the queue if its still
                 # there and not already removed by _release_waiter
